@@ -535,6 +535,7 @@ type runner struct {
 	entranceIn chan tmengine.VerifMRoundEntrance
 	smOut      chan tmengine.VerifMRoundView
 	gOut       chan tmelink.NetworkViewUpdate
+	replayIn   chan tmelink.ReplayedHeaderRequest
 	hcChans    []hcChan // HeightCommitted channels handed to the kernel, still open
 
 	io               string   // what a consumer operation received (tr), consumed by the next observe()
@@ -714,6 +715,108 @@ func (rn *runner) doGRead() {
 	fmt.Fprintf(rn.out, "STEP MGRead @@ 0 @@ %s\n", rn.observe())
 }
 
+// a replayed header (mirror catch-up): header for the voting height plus a commit proof
+func (rn *runner) replay(v, c *tmconsensus.VersionedRoundView) {
+	w := rn.w
+	H, R := v.Height, v.Round
+	variant := 0
+	if w.r.chance(1, 2) {
+		variant = 1 + w.r.below(9)
+	}
+	h := H
+	r := R
+	switch variant {
+	case 1:
+		h = H + 1
+	case 2:
+		r = R + 1
+	case 3:
+		r = R + 2
+	}
+	cur := rn.valsFor(H)
+	next, haveNext := rn.valsAt[H+1]
+	if !haveNext {
+		next = w.randValset()
+	}
+	saved, had := rn.valsAt[h]
+	rn.valsAt[h] = cur
+	hd := rn.mkHeader(h, v, c, v.PrevCommitProof.Clone(), next)
+	if had {
+		rn.valsAt[h] = saved
+	} else {
+		delete(rn.valsAt, h)
+	}
+	hashOK := true
+	curHdr, nextHdr := cur, next
+	switch variant {
+	case 4:
+		hd.Hash = append([]byte{}, hd.Hash...)
+		hd.Hash[0] ^= 1
+		hashOK = false
+	case 5:
+		hd.PrevBlockHash = []byte("not-the-committed-block")
+		hd.Hash, _ = w.hs.Block(hd)
+	case 6:
+		if w.r.chance(1, 2) {
+			nextHdr = w.forge(next)
+			hd.NextValidatorSet = nextHdr.vs
+		} else {
+			curHdr = w.forge(cur)
+			hd.ValidatorSet = curHdr.vs
+		}
+	}
+	// the commit proof: precommits for the header in round r
+	idxs := allIdx(len(cur.keys))
+	flaw := 0
+	target := string(hd.Hash)
+	switch variant {
+	case 7:
+		idxs = rn.randSubset(len(cur.keys), 1) // possibly not enough power
+	case 8:
+		flaw = 40 // some invalid signatures
+	case 9:
+		target = "another-block" // no entry for the header itself
+	}
+	proof := tmconsensus.CommitProof{Round: r, PubKeyHash: string(cur.vs.PubKeyHash),
+		Proofs: map[string][]gcrypto.SparseSignature{target: rn.mkSigsNoKid(cur, kindPrecommit, h, r, target, idxs, flaw)}}
+	if variant == 0 && w.r.chance(1, 3) {
+		proof.Proofs[""] = rn.mkSigsNoKid(cur, kindPrecommit, h, r, "", rn.randSubset(len(cur.keys), 1), 0)
+	}
+	rn.touched[hr{h, r}] = true
+	rn.touched[hr{h, R}] = true
+	rn.touched[hr{h, R + 1}] = true
+	resp := make(chan tmelink.ReplayedHeaderResponse, 1)
+	select {
+	case rn.replayIn <- tmelink.ReplayedHeaderRequest{Header: hd, Proof: proof, Resp: resp}:
+	case <-time.After(3 * time.Second):
+		panic("kernel did not take the replayed header")
+	}
+	var rr tmelink.ReplayedHeaderResponse
+	select {
+	case rr = <-resp:
+	case <-time.After(3 * time.Second):
+		panic("kernel did not answer the replayed header")
+	}
+	code := uint64(0)
+	if rr.Err != nil {
+		var oos tmelink.ReplayedHeaderOutOfSyncError
+		var val tmelink.ReplayedHeaderValidationError
+		switch {
+		case errors.As(rr.Err, &oos):
+			code = 1
+		case errors.As(rr.Err, &val):
+			code = 2
+		default:
+			code = 3
+		}
+	} else {
+		rn.valsAt[h+1] = next
+	}
+	rn.stats[fmt.Sprintf("replay_variant_%d", variant)]++
+	rn.stats[fmt.Sprintf("replay_res_%d", code)]++
+	rn.emit(fmt.Sprintf("(OpReplay %s %s)", rn.coqHdr(hd, hashOK, curHdr, nextHdr), w.coqCProof(proof)), code)
+}
+
 func (rn *runner) valsFor(h uint64) valset {
 	if v, ok := rn.valsAt[h]; ok {
 		return v
@@ -809,7 +912,8 @@ func (rn *runner) startMirror() {
 	rn.entered = false
 	cfg.GossipStrategyOut = rn.gOut
 	cfg.LagStateOut = make(chan tmelink.LagState)
-	cfg.ReplayedHeadersIn = make(chan tmelink.ReplayedHeaderRequest)
+	rn.replayIn = make(chan tmelink.ReplayedHeaderRequest)
+	cfg.ReplayedHeadersIn = rn.replayIn
 	cfg.StateMachineRoundEntranceIn = rn.entranceIn
 	cfg.StateMachineRoundViewOut = rn.smOut
 	m, err := tmengine.VerifNewInternalMirror(wctx, log, cfg)
@@ -1017,6 +1121,10 @@ func (rn *runner) step() {
 			rn.doGRead()
 			return
 		}
+	}
+	if replayMode && rn.pendingCrash < 0 && w.r.chance(1, 9) {
+		rn.replay(&v, &c)
+		return
 	}
 	H, R := v.Height, v.Round
 	cur := rn.valsFor(H)
@@ -1369,7 +1477,7 @@ func (rn *runner) proposal(v, c *tmconsensus.VersionedRoundView, H uint64, R uin
 	}
 }
 
-var crashMode, consumerMode bool
+var crashMode, consumerMode, replayMode bool
 
 func runCase(idx int, seed uint64, nOps int, out io.Writer, stats map[string]int) {
 	ctx, cancel := context.WithCancel(context.Background())
@@ -1437,6 +1545,7 @@ func main() {
 	ops := flag.Int("ops", 25, "operations per case")
 	flag.BoolVar(&crashMode, "crashes", false, "inject crashes (write budgets) and restarts")
 	flag.BoolVar(&consumerMode, "consumers", false, "act as state machine and gossip reader")
+	flag.BoolVar(&replayMode, "replay", false, "feed replayed headers (mirror catch-up)")
 	flag.Parse()
 	out := os.Stdout
 	stats := map[string]int{}
